@@ -20,7 +20,7 @@ Mk(cols, idx) == [cols |-> cols, idx |-> idx, idxpd |-> "int64", idxname |-> NA]
 
 ---------------------------------------------------------------------------
 (* container: presence, strict, ordered, regex expansion, duplicate labels *)
-CLabels == IF Rich THEN {A, B, AB, XB} ELSE {A, B, AB}
+CLabels == IF Rich THEN {A, B, AB, XB, sv(1)} ELSE {A, B, AB}
 CKeys == { <<A, FALSE>>, <<B, FALSE>>, <<rv(3), TRUE>> }        \* rv(3) = regex "ab*": matches a, ab (re.match = prefix)
 CCols == { [BaseCol EXCEPT !.key = kk[1], !.regex = kk[2], !.required = r, !.dtype = "int64"] :
              kk \in CKeys, r \in BOOLEAN }
@@ -36,15 +36,17 @@ InitContainer ==
 ColAChecks == { <<>>, <<Chk("gt", <<iv(0)>>)>>, <<Chk("le", <<iv(1)>>)>>,
                 <<Chk("gt", <<iv(0)>>), Chk("ne", <<iv(2)>>)>> }
 ColBChecks == { <<>>, <<[Chk("ge", <<iv(1)>>) EXCEPT !.ina = FALSE]>>, <<Chk("lt", <<iv(1)>>)>> }
+ColALabels == {A, sv(1), iv(0)}      \* "a", the empty string, the integer 0 (falsy labels)
 InitColumns ==
-  \E ca \in [1..2 -> {iv(0), iv(1), iv(2)}] : \E cb \in [1..2 -> {fv(1), fv(2), NA}] :
-  \E ix \in {DefaultIdx(2), <<iv(20), iv(10)>>} :
+  \E ca \in [1..2 -> {iv(0), iv(1), iv(2)}] : \E cb \in [1..2 -> {fv(-2), fv(2), NA}] :
+  \E la \in ColALabels :
+  \E ix \in (IF la = A THEN {DefaultIdx(2), <<iv(20), iv(10)>>} ELSE {DefaultIdx(2)}) :
   \E ka \in ColAChecks : \E ua \in BOOLEAN :
   \E kb \in ColBChecks : \E nb \in BOOLEAN : \E db \in {"float64", "int64"} : \E lz \in BOOLEAN :
      InitWith([BaseSchema EXCEPT !.cols =
-                 << [BaseCol EXCEPT !.key = A, !.dtype = "int64", !.checks = ka, !.unique = ua],
+                 << [BaseCol EXCEPT !.key = la, !.dtype = "int64", !.checks = ka, !.unique = ua],
                     [BaseCol EXCEPT !.key = B, !.dtype = db, !.nullable = nb, !.checks = kb] >>],
-              [cols |-> << IntCol(A, ca), [name |-> B, pd |-> "float64", cells |-> cb] >>,
+              [cols |-> << IntCol(la, ca), [name |-> B, pd |-> "float64", cells |-> cb] >>,
                idx |-> ix, idxpd |-> "int64", idxname |-> NA], lz)
 
 ---------------------------------------------------------------------------
